@@ -20,7 +20,7 @@ pub static SPEC: PropSpec = PropSpec {
     case_cpu_s: 120,
     shards: 0,
     run,
-    floors: &[("instantiations", 1_500, 60_000), ("programs_agree", 60, 2_500), ("mono_fns_checked", 2_000, 80_000)],
+    floors: &[("instantiations", 1_500, 40_000), ("programs_agree", 60, 2_500), ("mono_fns_checked", 2_000, 80_000)],
     finish: None,
 };
 
